@@ -126,6 +126,7 @@ def step (st : State) (toks : List String) : State × String :=
       else
       ({ st with actor := a' }, showRes r cs)
     | _, _ => (st, "bad-op")
+  | ["realclock", _] => (st, "realclock ok")   -- C11.after_register_greater over the ONE event list of the node's clock: gossip registers, users ask
   | ["realnodes", _, _] => (st, "real ok")   -- select_sound / selectN_complete: no selection of a well-formed layout is bad
   | ["sel-expire"] => ({ st with actor := { st.actor with cache := [] } }, "ok")
   | "mem-init" :: self :: rest =>
